@@ -375,6 +375,10 @@ def run_property(sources, pid):
     except AnalysisError as e:
         return set(), [str(e)], 0
     viol = {(o.rule, o.qual) for o in ctx.obs if o.verdict == 'violation'}
+    # a listed known finding whose construct is still there but which the rule no longer derives
+    # is an analysis error of the real check: count it here too
+    from .framework import apply_known, lost_known
+    errors = list(errors) + lost_known(ctx, apply_known(ctx))
     return viol, errors, len(ctx.obs)
 
 
